@@ -171,7 +171,13 @@ def size_of(e, st):
     if isinstance(e, (ast.ListComp, ast.GeneratorExp, ast.SetComp)) and len(e.generators) == 1:
         return size_of(e.generators[0].iter, st)
     if isinstance(e, ast.Subscript) and isinstance(e.slice, ast.Slice):
-        return size_of(e.value, st)
+        base = size_of(e.value, st)
+        sl = e.slice
+        # X[1:] / X[:-1] of a list known to be non-empty: one element less
+        if base is not None and isinstance(e.value, ast.Name) and e.value.id in st.nonempty and sl.step is None and (
+                (pat.const_value(sl.lower) == 1 and sl.upper is None) or (sl.lower is None and pat.const_value(sl.upper) == -1)):
+            return base - 1
+        return base
     if isinstance(e, ast.BinOp) and isinstance(e.op, ast.Add):
         l, r = e.left, e.right
         # X[:i] + X[i + 1:]  -- one element dropped
@@ -218,10 +224,27 @@ def _calls_in(node):
     return [n for n in ast.walk(node) if isinstance(n, ast.Call)]
 
 
+PURE_CALLEES = {"len", "float", "int", "abs", "map", "filter", "tuple", "list", "sorted", "max", "min", "sum", "any", "all",
+                "enumerate", "zip", "isinstance", "print", "iter", "reversed", "set", "frozenset", "str", "repr", "id", "copy",
+                "deepcopy", "range", "bool", "round", "type", "hash", "next", "divmod", "dict"}
+LIST_METHODS = {"append", "add", "insert", "appendleft", "pop", "remove", "popleft", "extend", "update", "extendleft", "clear",
+                "sort", "reverse", "index", "count", "copy", "discard"}
+
+
 def _apply_calls(expr, st):
     """side effects of the method calls inside an expression on list lengths"""
     for n in _calls_in(expr):
         f = n.func
+        # a list handed to a callee that is not known to be pure may come back with any length
+        pure = (isinstance(f, ast.Name) and f.id in PURE_CALLEES) or \
+            (isinstance(f, ast.Attribute) and f.attr in LIST_METHODS and isinstance(f.value, ast.Name))
+        if not pure:
+            for a in list(n.args) + [k.value for k in n.keywords]:
+                a = a.value if isinstance(a, ast.Starred) else a
+                if isinstance(a, ast.Name) and a.id in st.env and isinstance(st.env[a.id], Lin) \
+                        and (st.env[a.id].t or st.env[a.id].c):
+                    _mutated(a.id, st)
+                    st.env[a.id] = None
         if not (isinstance(f, ast.Attribute) and isinstance(f.value, ast.Name)):
             continue
         X = f.value.id
